@@ -1,12 +1,12 @@
 package main
 
 import (
+	"crypto/sha256"
 	"encoding/json"
 	"fmt"
 	"sort"
 	"strings"
 
-	"github.com/dolthub/dolt/go/store/nbs"
 	"github.com/golang/snappy"
 
 	"verif/harness/internal/hx"
@@ -18,55 +18,110 @@ type checker struct {
 	baseKnown map[string]bool
 }
 
-// knownShapeKey: the one shape DESIGN.md §11(e) predicts and C10_full_false proves on the model:
-// the address a read answers for is taken from an index / record that carries no checksum binding
-// it to the content, so a damaged address makes an address that was never stored answer with a
-// stored chunk's bytes.
-func knownShapeKey(kind string) string {
-	switch kind {
-	case "table":
-		return "tablefile-index-unchecksummed"
-	case "arc", "arcm":
-		return "archive-index-unchecksummed"
-	}
-	return "journal-address-not-verified"
-}
+// ---------------------------------------------------------------- violation keys
+//
+// A key is (file kind, corrupted region class, outcome class).  The individual panic site / size
+// field / operation goes into the description, not into the key: the format weaknesses (regions
+// without a checksum) produce many sites for one cause, and a key per site made the check alarm
+// on every new seed.  Things that are NOT explained by an unchecksummed region keep their own
+// region class (e.g. a panic on damage confined to the CRC-protected data region of a table file,
+// wrong bytes for a stored address with an intact index, a panic on the unmodified file).
 
-func inIndexRegion(j *job) bool {
-	switch j.b.Kind {
-	case "table", "arc", "arcm":
-		return strings.Contains(j.region, "idx.") || j.shape == "multi"
-	case "jrn":
-		return j.shape == "crcfix" || j.shape == "multi"
-	case "jidx":
-		return true
-	}
-	return false
-}
-
-// keyKind: the file kind as it appears in violation keys (the split scenario is its own kind).
-func keyKind(b *baseInfo) string {
+func kindName(b *baseInfo) string {
 	switch {
 	case b.Split:
-		return b.Kind + "-split"
+		return "table-split"
 	case b.Kind == "arc" || b.Kind == "arcm":
 		return "archive"
+	case b.Kind == "jrn":
+		return "journal"
+	case b.Kind == "jidx":
+		return "journal-index"
+	case b.Kind == "man":
+		return "manifest"
 	}
 	return b.Kind
 }
 
-func (ck *checker) violate(j *job, key, what string) {
-	ck.e.Rep.Violate(key, fmt.Sprintf("%s [file kind %s, corruption %s in %s (%s)]", what, j.b.Kind, j.mut.String(), j.region, j.shape), caseOf(j))
+// regionClassOf maps a layout region to its class.
+func regionClassOf(b *baseInfo, name string) string {
+	switch b.Kind {
+	case "table":
+		if strings.HasPrefix(name, "data.") {
+			return "data-region" // chunk records: payload + CRC-32C
+		}
+		return "index-region" // prefix tuples, lengths, suffixes, footer: no checksum
+	case "arc", "arcm":
+		if name == "data" {
+			return "data-region" // byte spans (zstd frames, dictionaries, snappy records)
+		}
+		return "index-region" // span index, prefixes, chunk refs, suffixes, metadata, footer: no checksum
+	case "jrn":
+		if strings.HasPrefix(name, "rec.") {
+			return "record"
+		}
+		return "tail"
+	case "jidx":
+		switch name {
+		case "lk.off", "lk.len":
+			return "lookup-range" // not covered by the batch CRC
+		case "lk.addr":
+			return "lookup-addr"
+		}
+		return "framing"
+	case "man":
+		if name == "sep" || name == "outside" {
+			return "separator"
+		}
+		return name + "-field"
+	}
+	return name
 }
 
-func (ck *checker) unstored(j *job, op, addr string) {
-	what := fmt.Sprintf("%s answered for address %s which was never stored (the stored chunk's bytes are returned under the damaged address)", op, addr)
-	if inIndexRegion(j) {
-		ck.e.Rep.Known(knownShapeKey(j.b.Kind), fmt.Sprintf("%s [file kind %s, corruption %s in %s]", what, j.b.Kind, j.mut.String(), j.region), caseOf(j))
-		ck.e.Rep.Hit("known-shape:" + knownShapeKey(j.b.Kind))
-		return
+// classify: the region class of a whole corruption.
+func classify(j *job) string {
+	if j.shape == "intact" {
+		return "none"
 	}
-	ck.violate(j, "unstored-answered:"+j.b.Kind+":"+op, what)
+	if j.shape == "crafted" {
+		return "record"
+	}
+	if j.mut.Trunc >= 0 && len(j.mut.Subs) == 0 {
+		return "truncation"
+	}
+	seen := map[string]bool{}
+	var first string
+	for _, sb := range j.mut.Subs {
+		c := regionClassOf(j.b, j.b.lay.at(sb[0]).name)
+		if first == "" {
+			first = c
+		}
+		seen[c] = true
+	}
+	if j.shape == "crcfix" {
+		return first // the damaged field; the other substitutions are the recomputed checksum
+	}
+	if len(seen) == 1 {
+		return first
+	}
+	for _, weak := range []string{"index-region", "lookup-range", "record"} {
+		if seen[weak] {
+			return weak
+		}
+	}
+	return "mixed"
+}
+
+func (ck *checker) violate(j *job, outcome, what string) {
+	key := kindName(j.b) + ":" + classify(j) + ":" + outcome
+	if j.shape == "crcfix" && outcome != "panic" && outcome != "misread" {
+		// the damage was given a recomputed CRC-32C: reads verify the CRC, never H(data) = address, so
+		// the damaged record is accepted and processed -- wrong bytes / a changed address or root come
+		// back, or the (now arbitrary) snappy length header drives a huge allocation
+		key = kindName(j.b) + ":" + classify(j) + ":crc-repaired-accepted"
+	}
+	ck.e.Rep.Violate(key, fmt.Sprintf("%s [file kind %s, corruption %s in %s (%s)]", what, j.b.Kind, j.mut.String(), j.region, j.shape), caseOf(j))
+	ck.e.Rep.Hit("key:" + key)
 }
 
 // oracle: the property's own predicate on the implementation's behaviour.  Returns a summary class.
@@ -74,30 +129,28 @@ func (ck *checker) oracle(j *job) string {
 	b := j.b
 	if j.died != "" {
 		cls := strings.SplitN(j.died, ":", 2)[0]
-		key := j.died
 		switch cls {
 		case "oom":
-			key = "runaway-alloc:" + keyKind(b)
-			ck.violate(j, key, fmt.Sprintf("the process died of memory exhaustion under a %d MiB address-space cap during %s: a size field of the corrupted file is used for an allocation without being checked against the file size", *flagCap>>20, j.diedOp))
+			ck.violate(j, "oom", fmt.Sprintf("the process died of memory exhaustion under a %d MiB address-space cap during %s: a size field of the corrupted file is used for an allocation without being checked against the file size", *flagCap>>20, j.diedOp))
 		case "timeout":
-			key = "timeout:" + keyKind(b)
-			ck.violate(j, key, "the read did not finish within 10 s (op "+j.diedOp+")")
+			cls = "hang"
+			ck.violate(j, "hang", fmt.Sprintf("the read did not finish within %d s, also when re-run alone (op %s)", int(hangRecheck.Seconds()), j.diedOp))
 		default:
-			key = "panic:" + keyKind(b) + ":" + strings.TrimPrefix(j.died, "crash:")
+			cls = "panic"
 			msg := ""
 			for _, o := range j.res.Ops {
 				if o.Op == "stderr" {
 					msg = " stderr tail: " + o.Msg
 				}
 			}
-			ck.violate(j, key, "the process crashed (unrecoverable: panic on a reader goroutine or fatal runtime error) during "+j.diedOp+" at "+strings.TrimPrefix(j.died, "crash:")+msg)
+			ck.violate(j, "panic", "the process crashed (unrecoverable: panic on a reader goroutine or fatal runtime error) during "+j.diedOp+" at "+strings.TrimPrefix(j.died, "crash:")+msg)
 		}
 		return cls
 	}
 	query := append(append([]string{}, b.Addrs...), j.extra...)
 	summary := "correct"
 	worse := func(s string) {
-		rank := map[string]int{"correct": 0, "error": 1, "known-shape": 2, "wrongdata": 3, "panic": 4}
+		rank := map[string]int{"correct": 0, "error": 1, "wrong-address-answered": 2, "wrong-data": 3, "panic": 4}
 		if rank[s] > rank[summary] {
 			summary = s
 		}
@@ -107,23 +160,17 @@ func (ck *checker) oracle(j *job) string {
 		want, isStored := b.stored[addr]
 		switch {
 		case !isStored:
-			ck.unstored(j, op, addr)
-			worse("known-shape")
-		case data != "-" && data != want && op != "hasmany" && j.shape == "crcfix":
-			// the damaged payload carries a recomputed CRC-32C: reads verify the CRC of the payload,
-			// not H(data) = address (C10_full is refuted on the model for exactly this reason)
-			ck.e.Rep.Known("chunk-payload-crc-only", fmt.Sprintf("%s returned bytes that do not hash to the requested address %s after the chunk record was damaged and its CRC-32C recomputed [file kind %s, corruption %s]", op, addr, b.Kind, j.mut.String()), caseOf(j))
-			ck.e.Rep.Hit("known-shape:chunk-payload-crc-only")
-			worse("known-shape")
+			ck.violate(j, "wrong-address-answered", fmt.Sprintf("%s answered for address %s which was never stored", op, addr))
+			worse("wrong-address-answered")
 		case data != "-" && data != want && op != "hasmany":
-			ck.violate(j, "wrongdata:"+keyKind(b), fmt.Sprintf("%s returned wrong bytes for stored address %s: got %s want %s", op, addr, data, want))
-			worse("wrongdata")
+			ck.violate(j, "wrong-data", fmt.Sprintf("%s returned wrong bytes for stored address %s: got %s want %s", op, addr, data, want))
+			worse("wrong-data")
 		}
 	}
 	for _, o := range j.res.Ops {
 		switch o.Class {
 		case "panic":
-			ck.violate(j, "panic:"+keyKind(b)+":"+o.Site, fmt.Sprintf("%s panicked: %s", o.Op, o.Msg))
+			ck.violate(j, "panic", fmt.Sprintf("%s panicked at %s: %s", o.Op, o.Site, o.Msg))
 			worse("panic")
 			continue
 		case "err":
@@ -136,18 +183,15 @@ func (ck *checker) oracle(j *job) string {
 				for _, r := range b.Roots {
 					okRoot = okRoot || r == o.Data
 				}
-				if !okRoot && (j.shape == "crcfix" || j.shape == "multi") {
-					ck.e.Rep.Known(knownShapeKey(b.Kind), "journal bootstrap returned root "+o.Data+" which was never committed, after a root record was damaged and its CRC-32C recomputed [corruption "+j.mut.String()+"]", caseOf(j))
-					worse("known-shape")
-				} else if !okRoot {
-					ck.violate(j, "journal-root-invented:"+b.Kind, "journal bootstrap returned root "+o.Data+" which was never committed")
-					worse("wrongdata")
+				if !okRoot {
+					ck.violate(j, "root-invented", "journal bootstrap returned root "+o.Data+" which was never committed")
+					worse("wrong-data")
 				}
 			}
 		case "has":
 			if o.Class == "ok" && o.A >= len(b.Addrs) {
-				ck.unstored(j, "has", query[o.A])
-				worse("known-shape")
+				ck.violate(j, "wrong-address-answered", "has answered true for address "+query[o.A]+" which was never stored")
+				worse("wrong-address-answered")
 			}
 		case "get":
 			if o.Class == "ok" {
@@ -163,34 +207,25 @@ func (ck *checker) oracle(j *job) string {
 				checkItem(o.Op, k, o.Items[k])
 			}
 			if o.Op == "iter" && o.Class == "ok" && len(o.Items) < len(b.stored) {
-				missing := 0
-				for a := range b.stored {
-					if _, ok := o.Items[a]; !ok {
-						missing++
-					}
-				}
-				if missing > len(b.stored)-len(o.Items)-0 && false {
-					_ = missing
-				}
-				ck.violate(j, "silent-short:"+keyKind(b)+":iter", fmt.Sprintf("iterateAllChunks returned nil error but only %d of %d stored chunks", len(o.Items), len(b.stored)))
-				worse("wrongdata")
+				ck.violate(j, "short-iteration", fmt.Sprintf("iterateAllChunks returned nil error but only %d of %d stored chunks", len(o.Items), len(b.stored)))
+				worse("wrong-data")
 			}
 		}
 	}
-	if j.shape == "intact" && summary != "correct" {
-		ck.violate(j, "intact-misread:"+b.Kind, "the unmodified valid file did not read back exactly: "+summary)
-	}
 	if j.shape == "intact" {
 		// everything stored must be present and right
+		if summary != "correct" {
+			ck.violate(j, "misread", "the unmodified valid file did not read back exactly: "+summary)
+		}
 		for _, o := range j.res.Ops {
 			if (o.Op == "has" || o.Op == "get") && o.A < len(b.Addrs) && o.Class != "ok" {
-				ck.violate(j, "intact-misread:"+b.Kind, fmt.Sprintf("unmodified file: %s of stored address #%d = %s %s", o.Op, o.A, o.Class, o.Msg))
+				ck.violate(j, "misread", fmt.Sprintf("unmodified file: %s of stored address #%d = %s %s", o.Op, o.A, o.Class, o.Msg))
 			}
 			if (o.Op == "getmany" || o.Op == "iter") && len(o.Items) != len(b.stored) {
-				ck.violate(j, "intact-misread:"+b.Kind, fmt.Sprintf("unmodified file: %s returned %d of %d chunks (%s %s)", o.Op, len(o.Items), len(b.stored), o.Class, o.Msg))
+				ck.violate(j, "misread", fmt.Sprintf("unmodified file: %s returned %d of %d chunks (%s %s)", o.Op, len(o.Items), len(b.stored), o.Class, o.Msg))
 			}
 			if o.Op == "open" && len(b.Roots) > 0 && o.Data != b.Roots[len(b.Roots)-1] {
-				ck.violate(j, "intact-misread:"+b.Kind, "unmodified journal: root "+o.Data)
+				ck.violate(j, "misread", "unmodified journal: root "+o.Data)
 			}
 		}
 	}
@@ -452,7 +487,29 @@ func (ck *checker) compare(j *job) {
 	}
 }
 
-var jrnBuffSize = int(nbs.VerifCorJournalBuffSize())
+var jrnBuffSize = journalBuff
+
+func layoutFor(b *baseInfo) layout {
+	file := hx.Unhex(b.File)
+	defer func() { recover() }()
+	switch b.Kind {
+	case "table":
+		return tableLayout(file, int(b.Count))
+	case "arc", "arcm":
+		si := make([]int, len(b.Addrs))
+		for i := range si {
+			si[i] = i
+		}
+		return archiveLayout(file, si)
+	case "jrn":
+		return journalLayout(file)
+	case "jidx":
+		return jidxLayout(file)
+	case "man":
+		return manifestLayout(file)
+	}
+	return nil
+}
 
 func (ck *checker) replay(p *pool, raw json.RawMessage) {
 	var c Case
@@ -461,23 +518,27 @@ func (ck *checker) replay(p *pool, raw json.RawMessage) {
 		return
 	}
 	b := &baseInfo{Base: c.Base, stored: map[string]string{}}
+	// workers and the model cache base files by id: a replayed base must not share the id of a generated one
+	b.ID = fmt.Sprintf("replay-%x", sha256.Sum256([]byte(c.Base.File+c.Base.Aux)))[:20]
 	for i := range c.Base.Addrs {
 		b.stored[c.Base.Addrs[i]] = c.Base.Datas[i]
 	}
-	j := &job{b: b, mut: c.Mut, extra: c.Extra, region: "replay", shape: "multi"}
-	if len(c.Mut.Subs) == 1 && c.Mut.Trunc < 0 {
-		j.shape = "single"
-		// recover the region for the known-shape classification
-		file := hx.Unhex(b.File)
-		switch b.Kind {
-		case "table":
-			j.region = tableLayout(file, int(b.Count)).at(c.Mut.Subs[0][0]).name
-		case "arc", "arcm":
-			j.region = "idx."
+	b.lay = layoutFor(b)
+	j := &job{b: b, mut: c.Mut, extra: c.Extra, region: "replay", shape: c.Shape}
+	if j.shape == "" {
+		j.shape = "multi"
+		if len(c.Mut.Subs) == 1 && c.Mut.Trunc < 0 {
+			j.shape = "single"
+		}
+		if len(c.Mut.Subs) == 0 && c.Mut.Trunc >= 0 {
+			j.shape = "trunc"
+		}
+		if len(c.Mut.Subs) == 0 && c.Mut.Trunc < 0 {
+			j.shape = "intact"
 		}
 	}
-	if len(c.Mut.Subs) == 0 && c.Mut.Trunc < 0 {
-		j.shape = "intact"
+	if len(c.Mut.Subs) > 0 {
+		j.region = b.lay.at(c.Mut.Subs[0][0]).name
 	}
 	p.runAll([]*job{j})
 	ck.check(j)
